@@ -978,6 +978,17 @@ impl ExWorld {
                     _ => note.push_str("no notification to deliver;"),
                 }
             }
+            "drain" => {
+                // deliver every notification that is waiting (operations that touch several prefixes queue them in the
+                // table's own order)
+                let o = self.obs.as_mut().unwrap();
+                use futures::FutureExt;
+                while let Some(Some(ev)) = o.sess.peer_event_rx.as_mut().unwrap().next().now_or_never() {
+                    if let ToPeerEvent::NlriChange(u) = ev {
+                        o.sess.handle_prefix_update(u);
+                    }
+                }
+            }
             "flush" => {
                 note.push_str(&self.flush_and_read().await);
             }
